@@ -1,6 +1,43 @@
-/-! Driver entry for property C18 (stub: not implemented yet). -/
-namespace HeartwoodModel.Driver.C18
+import HeartwoodModel.Model.Json
+import HeartwoodModel.Model.JsonWire
+import HeartwoodModel.Driver.Util
+/-! Driver entry for C18.
 
-def run (_args : List String) : String := "unimplemented"
+Case: `<nfc table> <tree>` — nfc table `hex>hex,…` or `-`: the graph of NFC on the string fragments of the
+case that are not already normalised (every other fragment is a fixed point); tree: the JSON value in the
+wire syntax of `Model/JsonWire.lean`, members in the order in which they are handed to the serialiser.
+
+Output: `direct=<hex|err> value=<hex|err>`: the canonical encoding of the value as given (a `Serialize`
+type that emits exactly these members, duplicates included), and of the `serde_json::Value` the same
+members build (`Json.norm`: IndexMap semantics). -/
+namespace HeartwoodModel.Driver.C18
+open HeartwoodModel.Json HeartwoodModel.JsonWire HeartwoodModel.Driver.Util
+
+def parseNfcTable (s : String) : Option (List (Bytes × Bytes)) :=
+  if s == "-" then some [] else
+  (splitOn s ',').mapM fun e =>
+    match splitOn e '>' with
+    | [a, b] => do let a ← hexBytes? a; let b ← hexBytes? b; some (a, b)
+    | _ => none
+
+def nfcOf (tbl : List (Bytes × Bytes)) (s : Bytes) : Bytes :=
+  match tbl.find? (fun e => e.1 == s) with
+  | some e => e.2
+  | none => s
+
+def showEnc : Option Bytes → String
+  | some b => toHex b
+  | none => "err"
+
+def run (args : List String) : String :=
+  match args with
+  | [nt, tree] =>
+    match parseNfcTable nt, parseTree [] tree with
+    | some ntbl, .ok j _ =>
+      let nfc := nfcOf ntbl
+      s!"direct={showEnc (encode nfc j)} value={showEnc (encode nfc (norm j))}"
+    | _, .fuel => "fuel"
+    | _, _ => "bad-op"
+  | _ => "bad-op"
 
 end HeartwoodModel.Driver.C18
